@@ -30,6 +30,23 @@ def check_render(ctx, h, doc, cfg_desc, config):
     ctx.checked("mutated")
     if not iso.same_obs(before, iso.observe(h)):
         V("mutated", "hugr-changed-by-render", {"config": cfg_desc})
+    # graphviz itself must accept the source (sampled: the layout binary costs ~40 ms)
+    if ctx.cfg.get("tier") == "thorough" or ctx.ch.coin(1, 3, "run-dot"):
+        import shutil
+        import subprocess
+        exe = shutil.which("dot")
+        if exe is None:
+            ctx.probe("dot_binary_missing")
+        else:
+            ctx.checked("dot-accepts")
+            ctx.probe("dot_binary_run")
+            p = subprocess.run([exe, "-Tcanon"], input=src.encode("utf-8"), capture_output=True, timeout=120)
+            if p.returncode != 0:
+                err = p.stderr.decode("utf-8", "replace")
+                first = next((ln for ln in err.splitlines() if ln.startswith("Error")), err[:80])
+                kind = "html-label" if ("label of node" in err or "syntax error" in first) else "other"
+                V("dot-accepts", f"graphviz-rejects-source:{kind}", {"config": cfg_desc, "stderr": err[:300]})
+                return None
     try:
         g = dot.parse(src)
     except dot.DotError as e:
